@@ -222,3 +222,108 @@ def copy_helper_rule(chk, cid, prog, cfgname):
             chk.violate(cid, '%s:copies-howmany-elements' % fname, loc(f, f.body), fname,
                         '%s must carry `howmany` elements of the old array over to the new one: %s' % (fname, why), cfgname=cfgname)
     return n
+
+
+def moved_block_extent_rule(chk, cid, prog, p, cfgname):
+    """?expand, workspace branch: what is shifted up by `extra` is everything between the start of the next array and the top of the head stack:
+    bytes_to_copy = (stack.array + stack.top1) - expanders[type+1].mem.  (stack.used also counts the scratch taken from the tail, stack.size is the
+    whole buffer: with either the shift runs into the tail scratch / past the buffer.)"""
+    f = prog.func(p + 'expand')
+    chk.saw(unit=f.unit, func=f.unit + ':' + f.name)
+    bc = [x for x in f.body.walk() if x.k == 'Call' and callee_name(x) == 'user_bcopy']
+    inst = '%s:moved-block-ends-at-top1' % f.name
+    if len(bc) != 1 or strip(bc[0].c[3]).k != 'Ref':
+        chk.violate(cid, inst, loc(f, (bc or [f.body])[0]), f.name, 'cannot find the single user_bcopy(src, dst, nbytes) with a local byte count', cfgname=cfgname)
+        return 1
+    vid = strip(bc[0].c[3]).a['id']
+    defs = [x for x in f.body.walk() if x.k == 'Assign' and x.a['op'] == '=' and strip(x.c[0]).k == 'Ref' and strip(x.c[0]).a.get('id') == vid]
+
+    def terms(e, sign=1):
+        e = strip(e)
+        if e.k == 'Binary' and e.a['op'] in ('+', '-'):
+            return terms(e.c[0], sign) + terms(e.c[1], sign if e.a['op'] == '+' else -sign)
+        return [(sign, canon(e, ids=False))]
+    ok = False
+    got = None
+    if len(defs) == 1:
+        got = sorted(terms(defs[0].c[1]))
+        want = sorted([(1, 'Glu->stack.array'), (1, 'Glu->stack.top1'), (-1, 'expanders[(type + 1)].mem')])
+        ok = got == want
+    if ok:
+        chk.ok(cid, inst, sample=pretty(defs[0])[:90])
+    else:
+        chk.violate(cid, inst, loc(f, defs[0] if defs else bc[0]), f.name,
+                    'the block shifted to make room must end at the top of the head stack: nbytes = stack.array + stack.top1 - expanders[type+1].mem; found %s' % (got,),
+                    cfgname=cfgname)
+    return 1
+
+
+def _eval_int(e, env):
+    e = strip(e)
+    if e.k == 'Int':
+        return const_value(e)
+    cv = const_value(e)
+    if cv is not None:
+        return cv
+    if e.k == 'Ref':
+        if e.a.get('name') in env:
+            return env[e.a['name']]
+        raise ValueError('free variable %s' % e.a.get('name'))
+    if e.k == 'Unary' and e.a['op'] in ('-', '~', '+'):
+        v = _eval_int(e.c[0], env)
+        return {'-': -v, '~': ~v, '+': v}[e.a['op']]
+    if e.k == 'Binary':
+        a, b = _eval_int(e.c[0], env), _eval_int(e.c[1], env)
+        op = e.a['op']
+        if op == '/':
+            if b == 0:
+                raise ValueError('division by zero')
+            q = abs(a) // abs(b)
+            return q if (a >= 0) == (b >= 0) else -q
+        if op == '%':
+            if b == 0:
+                raise ValueError('division by zero')
+            return abs(a) % abs(b) * (1 if a >= 0 else -1)
+        if op in ('+', '-', '*', '&', '|', '<<', '>>'):
+            return {'+': a + b, '-': a - b, '*': a * b, '&': a & b, '|': a | b, '<<': a << b, '>>': a >> b}[op]
+    raise ValueError('unsupported expression %s' % pretty(e)[:40])
+
+
+def usable_size_rule(chk, cid, prog, p, cfgname):
+    """The allocator may hand out bytes [0, stack.size) of the caller's buffer, and the tail stack starts at stack.top2 = stack.size.  Both are derived from
+    lwork; the derived value must never exceed lwork (and must be a multiple of 4: `word addressable`).  The defining expression is a closed form in
+    lwork alone; it is evaluated for lwork = 0..255 (several periods of any rounding to 4/8/16), which decides it for all lwork."""
+    from ..run import AnalysisBroken
+    n = 0
+    for fname in (p + 'SetupSpace', p + 'LUMemInit'):
+        f = prog.func(fname)
+        if f is None:
+            raise AnalysisBroken('%s not found' % fname)
+        chk.saw(unit=f.unit, func=f.unit + ':' + f.name)
+        sites = []
+        for x in f.body.walk():
+            if x.k == 'Assign' and x.a['op'] == '=':
+                lv = canon(x.c[0], ids=False)
+                if lv in ('Glu->stack.top2', 'Glu->stack.size') and any(y.k == 'Ref' and y.a.get('name') == 'lwork' for y in x.c[1].walk()):
+                    sites.append(x)
+        if not sites:
+            raise AnalysisBroken('%s: no assignment of stack.top2 / stack.size from lwork found' % fname)
+        for x in sites:
+            n += 1
+            inst = '%s:usable-size-within-lwork@%s' % (fname, canon(x.c[0], ids=False).split('.')[-1])
+            bad = None
+            try:
+                for v in range(0, 256):
+                    r = _eval_int(x.c[1], {'lwork': v})
+                    if r > v or r < 0 or r % 4 != 0:
+                        bad = (v, r)
+                        break
+            except ValueError as e:
+                raise AnalysisBroken('%s: cannot evaluate `%s`: %s' % (fname, pretty(x.c[1])[:50], e))
+            if bad is None:
+                chk.ok(cid, inst, sample='%s: <= lwork and a multiple of 4 for every lwork' % pretty(x)[:60])
+            else:
+                chk.violate(cid, inst, loc(f, x), fname,
+                            '`%s` gives %d for lwork = %d: the allocator would own bytes beyond work + lwork (or a size that is not word addressable)'
+                            % (pretty(x)[:60], bad[1], bad[0]), cfgname=cfgname)
+    return n
